@@ -69,9 +69,14 @@ structure Link where
   sinkReady : Bool := true
   sinkFail : Bool := false        -- dest.Write returns an error from now on
   sinkErr  : Bool := false        -- a dest.Write did fail (io.Copy returned an error)
+  /-- after a failed write the sink goroutine leaves a goroutine that keeps reading (and
+  discarding) the last stub's output until it is closed -/
+  sinkDrain : Bool := false
   /-- the source was cut off by the proxy closing the socket (not by the peer ending its
   stream): how much had been read by then depends on timing -/
   srcCut   : Bool := false
+  /-- … at most everything the peer had sent by then -/
+  cutHi    : Nat := 0
   log      : List Delivery := []  -- newest first, since the last protocol line
   delivered : Bytes := []         -- ghost: everything the sink got
   sent     : Bytes := []          -- ghost: everything the source read
@@ -230,10 +235,18 @@ def Link.sourceMove (l : Link) (now : Int) : Option Link :=
 
 /-- The sink goroutine: `io.Copy(dest, link.output)`. -/
 def Link.sinkMove (l : Link) (now : Int) : Option Link :=
-  if l.destClosed then none else
+  if l.destClosed then
+    -- `go io.Copy(io.Discard, link.output)` after a failed write
+    if !l.sinkDrain then none else
+    let w := l.wired
+    if w == 0 then none else
+    match l.offerTo w with
+    | some _ => some (l.ackUpstream w now)
+    | none => if l.inputClosed w then some { l with sinkDrain := false } else none
+  else
   match l.sinkPend with
   | some d =>
-    if l.sinkFail then some { l with sinkPend := none, destClosed := true, sinkErr := true }
+    if l.sinkFail then some { l with sinkPend := none, destClosed := true, sinkErr := true, sinkDrain := true }
     else if l.sinkReady then
       some { l with sinkPend := none, log := ⟨now, d⟩ :: l.log, delivered := l.delivered ++ d }
     else none
